@@ -22,11 +22,24 @@ import (
 const deadline = 20 * time.Second // virtual
 
 type cfg struct {
-	mode string
-	n, t int
+	mode  string
+	n, t  int
+	idset []uint16 // identifiers (node = party) if not 1..n
 }
 
-func (c cfg) String() string { return fmt.Sprintf("%s-n%dt%d", c.mode, c.n, c.t) }
+func (c cfg) String() string {
+	if c.idset != nil {
+		return fmt.Sprintf("%s-n%dt%d-ids%v", c.mode, c.n, c.t, c.idset)
+	}
+	return fmt.Sprintf("%s-n%dt%d", c.mode, c.n, c.t)
+}
+
+func (c cfg) members() []uint16 {
+	if c.idset != nil {
+		return c.idset
+	}
+	return ids(c.n)
+}
 
 func ids(n int) []uint16 {
 	out := make([]uint16, n)
@@ -49,7 +62,7 @@ type outcome struct {
 func runDKG(c *harness.C, k cfg, r *explore.Recorder) *outcome {
 	o := &outcome{}
 	rec := c.Bubble(func() {
-		members := ids(k.n)
+		members := k.members()
 		w := world.New(members)
 		st := &scen.Stack{Mode: k.mode, KGF: blsb.KeyGenFactory, SF: blsb.SignerFactory, Threshold: k.t - 1, Membership: scen.Identity(members)}
 		for _, id := range members {
@@ -130,15 +143,15 @@ func check(c *harness.C, k cfg, o *outcome, full bool, rot int, replay interface
 	}
 	for i := range o.shares {
 		if !o.returned[i] {
-			bad("keygen-returns", "keygen-never-returned", fmt.Sprintf("%v: party %d never returned", k, i+1))
+			bad("keygen-returns", "keygen-never-returned", fmt.Sprintf("%v: party %d never returned", k, k.members()[i]))
 			return false
 		}
 		if o.errs[i] != nil {
-			bad("keygen-succeeds", "keygen-error", fmt.Sprintf("%v: party %d: %v", k, i+1, o.errs[i]))
+			bad("keygen-succeeds", "keygen-error", fmt.Sprintf("%v: party %d: %v", k, k.members()[i], o.errs[i]))
 			return false
 		}
 	}
-	members := ids(k.n)
+	members := k.members()
 	signers := make([]*bls.TBLS, k.n)
 	var pk0 []byte
 	for i, id := range members {
@@ -445,18 +458,25 @@ func gen(c *harness.C) []harness.Case {
 					if n == 2 {
 						b = 3
 					}
-					plans = append(plans, plan{cfg{m, n, t}, b})
+					plans = append(plans, plan{cfg{mode: m, n: n, t: t}, b})
 				}
 			}
 		}
-		plans = append(plans, plan{cfg{"loud", 6, 4}, 0})
+		plans = append(plans, plan{cfg{mode: "loud", n: 6, t: 4}, 0})
 	} else {
 		for _, m := range []string{"loud", "silent"} {
-			plans = append(plans, plan{cfg{m, 3, 2}, 2})
+			plans = append(plans, plan{cfg{mode: m, n: 3, t: 2}, 2})
 		}
-		plans = append(plans, plan{cfg{"loud", 2, 2}, 3}, plan{cfg{"silent", 2, 2}, 3}, plan{cfg{"loud", 3, 3}, 1}, plan{cfg{"silent", 3, 3}, 1})
-		for _, k := range []cfg{{"loud", 4, 3}, {"silent", 4, 3}, {"loud", 4, 2}, {"loud", 5, 3}} {
+		plans = append(plans, plan{cfg{mode: "loud", n: 2, t: 2}, 3}, plan{cfg{mode: "silent", n: 2, t: 2}, 3}, plan{cfg{mode: "loud", n: 3, t: 3}, 1}, plan{cfg{mode: "silent", n: 3, t: 3}, 1})
+		for _, k := range []cfg{{mode: "loud", n: 4, t: 3}, {mode: "silent", n: 4, t: 3}, {mode: "loud", n: 4, t: 2}, {mode: "loud", n: 5, t: 3}} {
 			plans = append(plans, plan{k, 0})
+		}
+	}
+	// identifiers that are not 1..n (node id = party id): sparse, shifted, unsorted gaps
+	for _, m := range []string{"loud", "silent"} {
+		plans = append(plans, plan{cfg{mode: m, n: 3, t: 2, idset: []uint16{2, 5, 7}}, 1}, plan{cfg{mode: m, n: 3, t: 3, idset: []uint16{4, 9, 10}}, 0})
+		if m == "loud" || c.Thorough() {
+			plans = append(plans, plan{cfg{mode: m, n: 4, t: 3, idset: []uint16{2, 3, 4, 5}}, 0}, plan{cfg{mode: m, n: 4, t: 2, idset: []uint16{10, 20, 30, 40}}, 0})
 		}
 	}
 	for _, p := range plans {
